@@ -1545,3 +1545,60 @@ def fold_tuple_locals(fn: ast.AST) -> bool:
     if changed:
         ast.fix_missing_locations(fn)
     return changed
+
+
+# ---------------------------------------------------------------------------
+def ssa_straightline(fn: ast.AST) -> bool:
+    """`x = a; ...; x = f(x); ...` in ONE statement list, x bound nowhere else: the earlier bindings get their own names
+    (`x__s1 = a; ...; x = f(x__s1)`), so that every local is bound once and can be spelled out by substitution."""
+    changed = False
+    params = {a.arg for a in ast.walk(fn) if isinstance(a, ast.arg)}
+    all_stores = {}
+    for n in ast.walk(fn):
+        if isinstance(n, ast.Name) and isinstance(n.ctx, (ast.Store, ast.Del)):
+            all_stores[n.id] = all_stores.get(n.id, 0) + 1
+
+    def blocks(node):
+        out = []
+        for fld in ("body", "orelse", "finalbody"):
+            b = getattr(node, fld, None)
+            if isinstance(b, list) and b and isinstance(b[0], ast.stmt):
+                out.append(b)
+        if isinstance(node, ast.Try):
+            out += [h.body for h in node.handlers]
+        if isinstance(node, ast.Match):
+            out += [c.body for c in node.cases]
+        return out
+
+    def process(blk, in_loop):
+        nonlocal changed
+        plain = {}
+        for i, s in enumerate(blk):
+            if isinstance(s, ast.Assign) and len(s.targets) == 1 and isinstance(s.targets[0], ast.Name):
+                plain.setdefault(s.targets[0].id, []).append(i)
+        for name, idxs in plain.items():
+            if len(idxs) < 2 or name in params or all_stores.get(name) != len(idxs) or in_loop:
+                continue
+            for k, i in enumerate(idxs[:-1]):
+                new = f"{name}__s{k + 1}"
+                nxt = idxs[k + 1]
+
+                class R(ast.NodeTransformer):
+                    def visit_Name(self, n):
+                        return ast.copy_location(ast.Name(new, n.ctx), n) if n.id == name and isinstance(n.ctx, ast.Load) else n
+
+                blk[i].targets[0] = ast.copy_location(ast.Name(new, ast.Store()), blk[i].targets[0])
+                for j in range(i + 1, nxt):
+                    blk[j] = R().visit(blk[j])
+                blk[nxt].value = R().visit(blk[nxt].value)
+                changed = True
+        for s in blk:
+            if isinstance(s, (ast.FunctionDef, ast.AsyncFunctionDef, ast.ClassDef)):
+                continue
+            for b in blocks(s):
+                process(b, in_loop or isinstance(s, (ast.For, ast.While)))
+
+    process(fn.body, False)
+    if changed:
+        ast.fix_missing_locations(fn)
+    return changed
